@@ -45,7 +45,11 @@ class ErrorExtraction(object):
                 except:
                     from ._traceback import write_traceback
 
-                    write_traceback(logger)
+                    # Log the extractor's own failure without running
+                    # extractors on it: a failing extractor registered for a
+                    # base class of its own exception would otherwise recurse
+                    # without bound.
+                    write_traceback(logger, _extract_fields=False)
                     return {}
         return {}
 
